@@ -63,8 +63,7 @@ structure Core (s : State) : Prop where
   fpool  : FarmerPool s
   ghost  : GhostOK s
 
-/-- the invariant bundle (everything that holds as long as no operation of the F-farm-2
-class has been executed) -/
+/-- the invariant bundle of every reachable state -/
 structure Inv (s : State) : Prop where
   core   : Core s
   stakes : Stakes s
